@@ -31,7 +31,16 @@ claim("C08","muxsim","fault_enumeration",
 claim("C10","muxsim","fault_enumeration",
  "All single frames and all ordered pairs over 12 frame kinds x 8 flow-id classes (every slot state) are enumerated against a real endpoint under seeded schedules, random longer sequences beyond, optional invalid message at the end; Reset discipline per flow id against a reference model of what PROTOCOL.md fixes, bystander stream models, liveness probe.",
  "Only reactions PROTOCOL.md or the statement fix are judged; others taint the flow id and are recorded. " + NOTE_E1, T_DST + "; bounded-exhaustive frame-pair enumeration", "DESIGN.md §6 C10")
-for p in ["C01","C12","C13","C14","C16","C18","C19"]:
+claim("C13","muxsim","fault_enumeration",
+ "The real bridge future is driven against a scripted local byte stream (every call's outcome decided by the plan: chunking, Pending with/without wake, EOF, error on read/write/flush/shutdown, short writes) and a scripted raw peer (data, Finish, Reset, credit starvation); prefix/equality of relayed bytes, credit per frame, half-close propagation, completion with true byte counts, and 'a failed operation completes the bridge by quiescence'.",
+ NOTE_E1, T_DST + "; scripted I/O fault injection", "DESIGN.md §6 C13")
+claim("C16","muxsim","exploration",
+ "Keepalive under the paused virtual clock through the TimestampProvider seam: exact ping schedule, dead-peer detection within [T, T+I] of the last pong (event order) followed by resolution of every pending call, no timeout for peers answering within T (known finding: pong gaps above T), disabled values.",
+ "tokio's paused clock is the only clock; a dead peer is a transport that returns nothing. One listed known finding (see known_findings.txt).", T_DST + "; discrete-event virtual time", "DESIGN.md §6 C16")
+claim("C18","muxsim","fault_enumeration",
+ "SOCKS readers/writers polled against a scripted byte stream: reference-grammar requests under seeded chunkings with trailing bytes, cut at every byte offset x {EOF, error, left open} (sweep family), reply writers under partial/failed writes, UDP relay header build/parse against an independent RFC 1928 parser.",
+ "Addresses compared by value; SOCKS4 0.0.0.0 / 0.x.y.z not judged. The UDP header round trip and parse are pure functions checked alongside because the statement lists them.", "deterministic simulation with fault injection on the byte-stream seam (scripted AsyncRead/AsyncBufRead/AsyncWrite), cut-offset enumeration", "DESIGN.md §6 C18")
+for p in ["C01","C12","C14","C19"]:
     na(p, "check not built yet in this session (planned, see DESIGN.md §6); not claimed until its command exists")
 na("C09","pure codec function of one complete buffer (quantifier: inputs only): no schedule, clock, fault or interleaving for a simulator to decide; see DESIGN.md §6 C09")
 na("C17","outcome is a function of the TLS configuration cell alone; handshake randomness has no seam, so one seed cannot be one repeatable execution; see DESIGN.md §6 C17")
